@@ -42,6 +42,9 @@ def _diff(a, b, path):
         if ka != kb:
             miss = sorted(map(str, ka - kb))
             extra = sorted(map(str, kb - ka))
+            # numeric keys (capability / attribute / TLV codes) would give one signature per code for one root cause
+            if all(k.lstrip('-').isdigit() for k in miss + extra):
+                miss, extra = (['#'] if miss else []), (['#'] if extra else [])
             return path + '<keys:missing=%s,extra=%s>' % (','.join(miss), ','.join(extra))
         for k in sorted(a, key=str):
             d = _diff(a[k], b[k], '%s/%s' % (path, k))
